@@ -541,7 +541,7 @@ func (n *Node) appendPropertyNodes(stringToPrepend string, stmt *Statement, prin
 						}
 					} else if !privateNode.HasPrimitiveEntry() {
 						// Embedded statement (is printed as flat string, e.g., A: actor I: action, Cac: context)
-						stringToAppendTo.WriteString(privateNode.Entry.(*Statement).StringFlatStatement(true))
+						stringToAppendTo.WriteString(escapeForJSON(privateNode.Entry.(*Statement).StringFlatStatement(true)))
 					} else {
 						// Primitive properties
 						stringToAppendTo.WriteString(escapeForJSON(privateNode.Entry.(string)))
